@@ -398,6 +398,10 @@ func structsEqual(x, y any) (err error) {
 		ytf := yrt.Field(i)
 		yvf := yrv.Field(i)
 
+		if !xtf.IsExported() && !ytf.IsExported() {
+			continue
+		}
+
 		xn := xtf.Name
 		yn := ytf.Name
 
